@@ -85,6 +85,30 @@ def Tree.head : Tree → Nat
   | .typed o _ _ => 2 * o + 1
   | .post o _ _ _ => 2 * o + 1
 
+/-! ### the lexical constraint on occurrence indicators -/
+
+/-- a type token `ty n` stands for the base type `n / 4` with the occurrence indicator `n % 4`
+(0 none, 1 `?`, 2 `*`, 3 `+`); base 0 is `empty-sequence()`, which takes no indicator
+(2.0 [50] SequenceType ::= ("empty-sequence" "(" ")") | (ItemType OccurrenceIndicator?)) -/
+def tyBase (n : Nat) : Nat := n / 4
+def tyOcc (n : Nat) : Nat := n % 4
+
+/-- XPath 2.0+ A.1.2 extra-grammatical constraint *occurrence-indicators*: "a `+`, `*` or `?` that immediately follows an
+ItemType must be taken as an occurrence indicator"; after a SingleType (`cast as`, `castable as`, [49]) only `?`.
+The token list is normalised accordingly before it is parsed: `T * * 2` is `T* * 2`, `T * 2` is `T*  2` (which
+then fails to parse), `empty-sequence() * 2` and `T? * 2` are multiplications.
+`occOf o`: the indicator code if symbol `o` is `?`, `*` or `+`; `single t`: the typed operator `t` takes a SingleType. -/
+def absorbOcc (occOf : Nat → Option Nat) (single : Nat → Bool) : List Tok → List Tok
+  | .op t :: .ty n :: .op o :: rest =>
+      match occOf o with
+      | some i =>
+          if tyOcc n == 0 && tyBase n != 0 && (!single t || i == 1) then
+            .op t :: .ty (n + i) :: absorbOcc occOf single rest
+          else .op t :: .ty n :: absorbOcc occOf single (.op o :: rest)
+      | none => .op t :: .ty n :: absorbOcc occOf single (.op o :: rest)
+  | x :: rest => x :: absorbOcc occOf single rest
+  | [] => []
+
 /-! ### the grammar as a level table -/
 
 /-- what an operator symbol does at its level -/
